@@ -134,6 +134,11 @@ def child_main(script, path, marker, rfd, wfd, close_fds, inherited=None):
                     pass
             return n
 
+        def released():
+            # (c) after its outermost release a process must not keep the lock file open (let alone locked)
+            if lock.is_locked or fds_on_lock_file():
+                io.report(b'V', 3)
+
         def failed():
             # (b) an acquire that reported failure must not keep the lock file open (let alone locked)
             if lock.is_locked or fds_on_lock_file():
@@ -166,12 +171,17 @@ def child_main(script, path, marker, rfd, wfd, close_fds, inherited=None):
                 os.unlink(marker)
             io.report(b'X')
 
+        round_no = [0]
+
         def one_round(depth):
             how = script.get('how', 'acquire')
             kw = {}
-            if script.get('mode') == 'nb':
+            mode = script.get('mode')
+            if script.get('modes'):
+                mode = script['modes'][round_no[0] % len(script['modes'])]
+            if mode == 'nb':
                 kw = {'blocking': False}
-            elif script.get('mode') == 'timed':
+            elif mode == 'timed':
                 kw = {'timeout': script.get('timeout', 0.25)}
             if how == 'acquire':
                 if lock.acquire(**kw):
@@ -210,6 +220,10 @@ def child_main(script, path, marker, rfd, wfd, close_fds, inherited=None):
         try:
             for _ in range(script.get('rounds', 1)):
                 one_round(script.get('nest', 1))
+                round_no[0] += 1
+                sys.settrace(None)
+                released()
+                sys.settrace(gtrace)
         finally:
             sys.settrace(None)
         io.report(b'D', wait=False)
@@ -313,7 +327,9 @@ class Controller:
             what = {0: ('filelock.process_overlap', 'a process found the exclusive marker already present'),
                     1: ('filelock.process_not_locked_inside', 'is_locked false inside the section'),
                     2: ('filelock.process_keeps_lock_after_failure',
-                        'an acquire that reported failure left the lock file open / locked in that process')}[line]
+                        'an acquire that reported failure left the lock file open / locked in that process'),
+                    3: ('filelock.process_keeps_lock_after_release',
+                        'after its outermost release a process still has the lock file open / locked')}[line]
             self.viol('C02', what[0], what[1], f'process {ch.idx} (step {self.steps})')
         elif kind == 'F':
             ch.state = 'parked'
@@ -436,6 +452,8 @@ def gen_script(rng, allow_reentrant=True):
     mode = _w(rng, [('default', 5), ('nb', 2), ('timed', 3)]) if how != 'with' else 'default'
     reentrant = allow_reentrant and rng.random() < 0.3
     return {'how': how, 'mode': mode, 'reentrant': reentrant, 'nest': rng.randint(1, 3) if reentrant else 1,
+            # later rounds may use another acquisition mode than the first (a try-lock that fails, then a real acquire)
+            'modes': [_w(rng, [('default', 5), ('nb', 3), ('timed', 3)]) for _ in range(3)] if how != 'with' else None,
             'rounds': rng.randint(1, 3), 'ctor_timeout': _w(rng, [(-1, 6), (0.25, 3), (0, 1)]),
             'timeout': 0.25, 'hold_steps': rng.randint(1, 4)}
 
